@@ -82,6 +82,7 @@ def _stub(case):
     class StubPTest(Test):
         '''carries p-values'''
         dsref = _DS()
+        datasets = [_DS() for _ in case['p']]     # as TestDataset: the datasets compared with dsref
 
         def evaluate(self):
             return _Res()
